@@ -69,12 +69,15 @@ benign)
   # property-preserving changes written by independent sub-agents (/verif/benign): no check may alarm.
   # Runs against a scratch worktree + scratch simulator copy (tools/scratch_check.sh), never /repo.
   fail=0
-  for f in "$VERIF_DIR"/benign/*.diff; do
-    case "$(basename $f)" in
-      B1-*) props="C10 C11 C12 C07";;
-      B2-*) props="C04 C05 C06 C17 C11";;
-      *)    props="C13 C14 C15 C07";;
-    esac
+  for f in "$VERIF_DIR"/benign/${BENIGN_FILTER:-*}.diff; do
+    # the properties to check follow from the crates a patch touches
+    props=""
+    grep -q '^+++ b/crates/cascette-cache/' "$f" && props="$props C10 C11 C12 C07 C13"
+    grep -q '^+++ b/crates/cascette-client-storage/' "$f" && props="$props C04 C05 C06 C17 C11 C07"
+    grep -q '^+++ b/crates/cascette-protocol/' "$f" && props="$props C13 C14 C15 C07"
+    grep -q '^+++ b/crates/cascette-ribbit/' "$f" && props="$props C15 C13"
+    grep -q '^+++ b/crates/cascette-formats/\|^+++ b/crates/cascette-crypto/' "$f" && props="$props C04 C07 C13 C15"
+    props=$(echo $props | tr ' ' '\n' | sort -u | tr '\n' ' ')
     out=$("$VERIF_DIR/tools/scratch_check.sh" "$f" $props 2>&1 | grep -E " exit=")
     echo "$out"
     echo "$out" | grep -qv " exit=0 " && fail=1
